@@ -14,7 +14,7 @@ import struct
 
 from vlib.common import NCPU, Run, Shard, describe_exc, rng, run_shards
 
-SEG = 39
+from vlib.libconst import segment_size
 
 
 def apply_changes(block: bytes, changes):
@@ -131,6 +131,7 @@ class Hist:
             self.sh.inconc("refresh returned True but the simulator saw no STATU")
             return
         t_req, content = self.statu_snap[-1]
+        SEG = segment_size()
         end = min(start + (-(-length // SEG)) * SEG, 1024)
         self.timeline.append((t1, "refresh", (start, content[start:end])))
 
